@@ -128,6 +128,19 @@ Proof.
 Qed.
 Print Assumptions C05_fast_progress_can_resume_from_any_state_partial.
 
+(* the premises of the two resume theorems are satisfiable: n = 4, replica 4 Byzantine, Q = {1,2,3} *)
+Definition reps4 : list rid := [1;2;3;4].
+Definition quorum3 : list rid := [1;2;3].
+Example C05_resume_premises_satisfiable :
+  config_ok [1;2;3;4] [4] {| b_hash := 1; b_parent := 0; b_view := 0; b_qc := 0 |} = true /\
+  NoDup quorum3 /\ (qsize reps4 <= length quorum3)%nat /\
+  (forall r, In r quorum3 -> member reps4 r = true /\ honest [4] r = true).
+Proof.
+  split; [vm_compute; reflexivity|]. split; [repeat constructor; simpl; intuition discriminate|].
+  split; [vm_compute; repeat constructor|].
+  intros r [<-|[<-|[<-|[]]]]; split; reflexivity.
+Qed.
+
 (* Fault-free synchronous run, unbounded: for either ruleset, every cluster size n >= 1 (replicas
    1..n, none faulty) and every number of views k, the abstract system has a reachable state — the
    run in which in each view the leader's block on top of the previous one is voted by everybody —
